@@ -143,6 +143,24 @@ package volume
 //@ ensures[C05] "range" forall kk :: 0 <= kk && kk < len(result) ==> 0 - 1 <= result[kk] && result[kk] <= 1
 //@ ensures[C03] consumed(snapshots) == len(snapshots) && closed(result)
 //@ ensures[C04] forall kk :: 0 <= kk && kk < len(result) ==> hor(result, kk) <= hor(snapshots, kk)
+//@ rel[C18] "price" param lam real
+//@ rel[C18] "price" assume lam > 0 && len(second(snapshots)) == len(snapshots) && (forall k :: 0 <= k && k < len(snapshots) ==> pscaled(second(snapshots)[k], snapshots[k], lam))
+//@ rel[C18] "price" assume forall j :: 0 <= j && j < len(snapshots) ==> closings[j] != 0
+//@ rel[C18] "price" step forall j :: 0 <= j && j < len(snapshots) ==> second(closings)[j] == lam * closings[j] && second(volumes)[j] == 1 * volumes[j] && closings[j] != 0
+//@ rel[C18] "price" use[cond] nviR_scale(closings, volumes, second(closings), second(volumes), lam, 1, n.NegativeVolumeIndex.Initial, _)
+//@ rel[C18] "price" step forall i :: 0 <= i && i < len(snapshots) - 1 ==> nviR(second(closings), second(volumes), n.NegativeVolumeIndex.Initial, i) == nviR(closings, volumes, n.NegativeVolumeIndex.Initial, i)
+//@ rel[C18] "price" step forall i :: 0 <= i && i < len(nvisSplice[1]) ==> second(nvisSplice[1])[i] == nvisSplice[1][i]
+//@ rel[C18] "price" use[cond] ema_cong(second(nvisSplice[1]), nvisSplice[1], n.NegativeVolumeIndexEma.Period, emam(n.NegativeVolumeIndexEma), _)
+//@ rel[C18] "price" ensures len(second(result)) == len(result) && (forall k :: 0 <= k && k < len(result) ==> second(result)[k] == result[k])
+//@ rel[C18] "volume" param mu real
+//@ rel[C18] "volume" assume mu > 0 && len(second(snapshots)) == len(snapshots) && (forall k :: 0 <= k && k < len(snapshots) ==> vscaled(second(snapshots)[k], snapshots[k], mu))
+//@ rel[C18] "volume" assume forall j :: 0 <= j && j < len(snapshots) ==> closings[j] != 0
+//@ rel[C18] "volume" step forall j :: 0 <= j && j < len(snapshots) ==> second(closings)[j] == 1 * closings[j] && second(volumes)[j] == mu * volumes[j] && closings[j] != 0
+//@ rel[C18] "volume" use[cond] nviR_scale(closings, volumes, second(closings), second(volumes), 1, mu, n.NegativeVolumeIndex.Initial, _)
+//@ rel[C18] "volume" step forall i :: 0 <= i && i < len(snapshots) - 1 ==> nviR(second(closings), second(volumes), n.NegativeVolumeIndex.Initial, i) == nviR(closings, volumes, n.NegativeVolumeIndex.Initial, i)
+//@ rel[C18] "volume" step forall i :: 0 <= i && i < len(nvisSplice[1]) ==> second(nvisSplice[1])[i] == nvisSplice[1][i]
+//@ rel[C18] "volume" use[cond] ema_cong(second(nvisSplice[1]), nvisSplice[1], n.NegativeVolumeIndexEma.Period, emam(n.NegativeVolumeIndexEma), _)
+//@ rel[C18] "volume" ensures len(second(result)) == len(result) && (forall k :: 0 <= k && k < len(result) ==> second(result)[k] == result[k])
 
 //@ func WeightedAveragePriceStrategy.Compute
 //@ requires v.WeightedAveragePrice.Sum.Period >= 1 && consumed(snapshots) == 0
